@@ -963,6 +963,10 @@ fn oracle_wcalls(ic: u8, fac: u8, calls: &[Call], r: &RunResult, case: &str, obs
                 let b = s.as_bytes();
                 let mut i = 0;
                 while i < b.len() { if b[i] == b'\\' && i + 1 < b.len() { i += 1; } un.push(b[i]); i += 1; }
+                // explicit exclusion: "quoted payloads survive escaping" does not hold for a payload that ends in `\n` —
+                // write_quoted documents (writer.rs:300) that it trims ONE trailing newline; such payloads are compared
+                // minus that newline and counted here (C15_unescape: unescape (escape x) = dropOneTrailingNewline x)
+                if p.last() == Some(&b'\n') { obs.count("excluded:quoted-payload-ends-in-newline(documented-trim,writer.rs:300)"); }
                 let want = if p.last() == Some(&b'\n') { &p[..p.len() - 1] } else { &p[..] };
                 if un != want { obs.violation("quoted-unescape", case, &format!("payload {} on disk {}", hex(p), hex(b))); }
             }
